@@ -132,3 +132,29 @@ func N0(a int) int { return a + 1 }
 
 // Pkg is this package's import path.
 const Pkg = "verifh/targets/hw"
+
+// F2p has two parameters (for "too few condition arguments").
+//
+//go:noinline
+func F2p(a, b int) int {
+	if a > 1<<40 {
+		return a*23 - b
+	}
+	return a + b + 900
+}
+
+// R2 has two results (for "too few return values").
+//
+//go:noinline
+func R2(a int) (int, int) {
+	if a > 1<<40 {
+		return a * 29, a - 1
+	}
+	return a + 1000, a + 1001
+}
+
+// NotIface is a non-interface variable.
+var NotIface int = 5
+
+// PlainVar is a plain variable.
+var PlainVar int = 6
